@@ -24,7 +24,7 @@ def models():
 
 
 def lattice(tier):
-    vols = ['False', 'True', 'num', 'obj', 'growing'] + (['dividing'] if tier == 'thorough' else [])
+    vols = ['False', 'True', 'num', 'obj', 'growing', 'dividing']
     grids = [3, 5, 9] if tier == 'thorough' else [3, 6]
     out = []
     for stochastic, delay, safe, vol, df, via, mname, n in itertools.product(
